@@ -82,6 +82,20 @@ def _check_norm(ctx, rep, model_ok):
                 rep.violate(sig, f"table location {tp!r}: spellings {sorted(forms)} of one file normalise to {sorted(got)}",
                             {"kind": "norm", "tp": tp, "file": core})
     rep.sample({"norm_case": reqs[3], "model": model[3]})
+    # which listed file a manifest entry / marker payload REFERS to (`_referenced_path`): spellings of a path, local vs object storage
+    if model_ok and hasattr(_gc_obj("t", None), "_referenced_path"):
+        spelled = ["data/x.parquet", "data//x.parquet", "data/./x.parquet", "/data/sub/../x.parquet", "./data/x.parquet", "data/sub/./../x.parquet/",
+                   "//data///y", "data/../../z", "../x", "..", ".", "", "data/a/b/../../c", "metadata/manifests//m.avro", "data/region=eu/./p.parquet"]
+        s3be = fakes3.make_backend("wh/t")
+        for loc_flag, tp, st in (("1", "/abs/t", LocalStorageBackend("/abs/t")), ("1", "rel/t", LocalStorageBackend("rel/t")), ("0", "wh/t", s3be)):
+            real = os.path.realpath(tp) if loc_flag == "1" else ""
+            reqs2 = [f"gc.ref {loc_flag} {enc(tp)} {enc(real)} {enc(p_)}" for p_ in spelled]
+            for p_, m_ in zip(spelled, driver.ask(reqs2)):
+                g = _gc_obj(tp, st)
+                impl = g._referenced_path(p_)
+                rep.corr_cases += 1
+                if dec(m_) != impl:
+                    rep.diverge("gc.ref (_referenced_path)", {"tp": tp, "p": p_, "local": loc_flag}, dec(m_), impl)
 
 
 class _StubStorage:
